@@ -350,6 +350,143 @@ def _work(job):
     return out
 
 
+# ---------------------------------------------------------------------------
+# code -> spec: recorded random executions validated by TraceGenerator.tla
+
+
+class DrawCounter:
+    """Wrappers that expose the position of the nugget noise stream of a generator:
+    number of nugget draws since its RNG was last (re)created."""
+
+    def __init__(self, gs):
+        self.gen = gs.field.generator
+        self.saved = []
+
+    def __enter__(self):
+        for cls in (self.gen.RandMeth, self.gen.Fourier):
+            orig_reset, orig_nug = cls.reset_seed, cls.get_nugget
+
+            def reset_seed(this, seed=np.nan, _o=orig_reset):
+                out = _o(this, seed)
+                this._verif_draws = 0
+                return out
+
+            def get_nugget(this, shape, _o=orig_nug):
+                out = _o(this, shape)
+                if isinstance(out, np.ndarray):
+                    this._verif_draws = getattr(this, "_verif_draws", 0) + 1
+                return out
+
+            self.saved.append((cls, orig_reset, orig_nug))
+            cls.reset_seed, cls.get_nugget = reset_seed, get_nugget
+        return self
+
+    def __exit__(self, *a):
+        for cls, r, n in self.saved:
+            cls.reset_seed, cls.get_nugget = r, n
+
+
+def random_executions(kind, cls, dim, rng, n_exec, n_ops):
+    import gstools as gs
+
+    X = grid_points(dim)
+    seeds = [SEED_SMALL, SEED_BIG, SEED_NEAR]
+    anis_toks = [1] if dim == 1 else [1, 2, 3]
+    ang_toks = [0] if dim == 1 else [0, 1]
+    events = []
+    with DrawCounter(gs):
+        for _x in range(n_exec):
+            pm = {"var": rng.choice([1, 2]), "len": rng.choice([1, 2]), "anis": rng.choice(anis_toks),
+                  "ang": rng.choice(ang_toks), "nug": rng.choice([0, 1])}
+            st = {"pm": dict(pm), "seed": rng.choice(seeds), "modeNo": rng.choice([4, 6]),
+                  "period": rng.choice([1, 2]) if kind == "Fourier" else KEEP}
+            r = Real(kind, cls, dim, st, fresh=True)
+            events.append(dict(name="Init", pm=dict(pm), seed=st["seed"], modeNo=st["modeNo"], period=st["period"], draws=0))
+            for _i in range(n_ops):
+                k = rng.choice(["Call", "Call", "Call", "InPlace", "InPlace", "AssignModel", "GenModeNo", "GenSeed", "GenReset"]
+                               + (["GenPeriod"] if kind == "Fourier" else []))
+                if k == "Call":
+                    op = {"name": "Call", "seed": rng.choice([KEEP, KEEP] + seeds)}
+                    r.call(op["seed"], X)
+                elif k == "InPlace":
+                    fld = rng.choice(["var", "len", "nug"] + (["anis", "ang"] if dim > 1 else []))
+                    dom = {"var": [1, 2], "len": [1, 2], "nug": [0, 1], "anis": anis_toks, "ang": ang_toks}[fld]
+                    v = rng.choice([x for x in dom if x != pm[fld]])
+                    op = {"name": "InPlace", "fld": fld, "v": v}
+                    pm[fld] = v
+                    r.apply(op)
+                elif k == "AssignModel":
+                    m = {"var": rng.choice([1, 2]), "len": rng.choice([1, 2]), "anis": rng.choice(anis_toks),
+                         "ang": rng.choice(ang_toks), "nug": rng.choice([0, 1])}
+                    if m == pm:
+                        continue
+                    op = {"name": "AssignModel", "m": dict(m)}
+                    pm = dict(m)
+                    r.apply(op)
+                elif k == "GenReset":
+                    op = {"name": k, "v": rng.choice([KEEP] + seeds)}
+                    r.apply(op)
+                else:
+                    op = {"name": k, "v": rng.choice({"GenModeNo": [4, 6], "GenSeed": seeds, "GenPeriod": [1, 2]}[k])}
+                    r.apply(op)
+                op["draws"] = int(getattr(r.srf.generator, "_verif_draws", 0))
+                events.append(op)
+    return events
+
+
+def trace_validation(rep, sc, tier, rng, kinds):
+    import json
+
+    n_exec, n_ops = (40, 20) if tier == "quick" else (400, 30)
+    jobs, meta = [], {}
+    for kind in kinds:
+        sk = "Fourier" if kind == "Fourier" else "RandMeth"
+        for dim in (1, 2, 3):
+            if kind == "IncomprRandMeth" and dim == 1:
+                continue
+            tag = "%s_%d" % (kind, dim)
+            evs = random_executions(kind, "Gaussian", dim, rng, n_exec, n_ops)
+            fn = sc.write("gtrace_%s.json" % tag, json.dumps(evs))
+            name = "TR_" + tag
+            mod, cfg = mc_text(name, sk, dim, "mc")
+            mod = mod.replace("EXTENDS Generator", "EXTENDS TraceGenerator").replace("McMaxDraws == 3", "McMaxDraws == 1000")
+            sc.write(name + ".tla", mod)
+            cfgt = cfg + "SPECIFICATION TraceSpec\nINVARIANT TraceMatches\nINVARIANT NotStuck\nPOSTCONDITION TraceAccepted\nCHECK_DEADLOCK FALSE\n"
+            jobs.append((tag, sc, name, cfgt, dict(workers=1, timeout=1800, env={"TRACE_FILE": fn})))
+            meta[tag] = (kind, dim, evs)
+    # binding demonstration: a corrupted observation must be rejected
+    tag0 = jobs[0][0]
+    evs0 = json.loads(json.dumps(meta[tag0][2]))
+    k = next(i for i in range(len(evs0) // 2, len(evs0)) if evs0[i]["name"] == "Call")
+    evs0[k]["draws"] += 1
+    fn0 = sc.write("gtrace_corrupt.json", json.dumps(evs0))
+    jobs.append(("__corrupt__", sc, jobs[0][2], jobs[0][3], dict(workers=1, timeout=1800, env={"TRACE_FILE": fn0})))
+    res = tlc.run_many(jobs, parallel=6)
+    rc = res.pop("__corrupt__")
+    tlc.must_pass(rc, "corrupted trace")
+    if rc.error is None:
+        raise tlc.MachineryError("binding not demonstrated: a corrupted generator trace was accepted")
+    n_ev = n_ex = n_bad = 0
+    for tag, r in sorted(res.items()):
+        kind, dim, evs = meta[tag]
+        tlc.must_pass(r, "trace " + tag)
+        rep.add_tlc("TraceGenerator[%s,dim %d]" % (kind, dim), r)
+        n_ev += len(evs)
+        n_ex += sum(1 for e in evs if e["name"] == "Init")
+        if r.error:
+            n_bad += 1
+            tr = tlc.error_trace(r)
+            l = tr[-1]["state"].get("l", 0) if tr else 0
+            idx = max(0, l - 2)
+            rep.drift_msg("recorded execution of %s dim %d is not explained by the code-shaped layer of Generator.tla at event #%d %s (%s): "
+                          "spec stream position %s" % (kind, dim, idx, evs[idx] if idx < len(evs) else "?", r.error[1],
+                                                       tr[-1]["state"].get("draws") if tr else "?"))
+    rep.traces += n_ex
+    rep.extra["trace_validation"] = {"executions": n_ex, "events": n_ev, "rejected_batches": n_bad,
+                                     "observable": "nugget draws since the RNG was (re)created, read through wrappers around reset_seed / get_nugget",
+                                     "binding_demonstration": "a recorded execution with one corrupted observation is rejected: %s %s" % rc.error}
+
+
 def run(pid, tier, seed, replay=None):
     rep = Report(pid, tier, seed)
     rng = random.Random(seed)
@@ -432,6 +569,7 @@ def run(pid, tier, seed, replay=None):
                     rep.sample(s, cap=6)
                 for key, what, rp in o["violations"]:
                     rep.violation(key, what, rp)
+        trace_validation(rep, sc, tier, rng, kinds)
     return rep.finish(
         level="model_checking",
         rule="behaviours = edge cover of TLC's state graph (<= 3 operations from the initial states) + TLC -simulate histories, each replayed twice "
